@@ -693,7 +693,7 @@ def c14_cases(tier, seed):
 
 PROPS["C14"] = {
     "theorems": ["C14_defaults", "C14_setField_frame", "C14_unknown_key_ignored", "C14_absent_keeps", "C14_invalid_pattern_rejected",
-                 "C14_transformOn_only_on", "C14_transformOn_spread", "C14_objectSlots_only_sole_ident_or_call", "C14_patterns_only_matched_tags"],
+                 "C14_transformOn_only_on", "C14_transformOn_spread", "C14_objectSlots_only_sole_ident_or_call", "C14_patterns_only_matched_tags", "C14_no_option_matters_without_jsx", "C14_resolveType_only_defineComponent"],
     "cases": c14_cases,
     "unit_clause": {"options": "options-parse"},
     "trusted_extra": ["JSON text -> JSON value parsing (Python's json for the model side, serde_json for the implementation) is trusted; regex validity is answered by the real regex crate"],
